@@ -151,6 +151,7 @@ def gen_callcache_consts():
     write_ops = sorted(n for n, bd in arms.items() if WRITE_RE.search(bd))
     # every other mention in the runtime: which functions clear / write / read it
     clearers, others = [], []
+    bodies = {}
     files = []
     for dp, dn, fn in os.walk(os.path.join(extract.REPO, "runtime", "src")):
         for f in fn:
@@ -173,12 +174,18 @@ def gen_callcache_consts():
                 bd = fn_body(txt[m.start():], m.group(1))
             except ExtractError:
                 continue
+            bodies.setdefault(m.group(1), bd)
             if "call_site_cache" not in bd:
                 continue
             if CLEAR_RE.search(bd):
                 clearers.append(m.group(1))
             if WRITE_RE.search(bd) or READ_RE.search(bd):
                 others.append(f"{rel}:{m.group(1)}")
+    # a function that calls a clearing helper (self.helper()) clears too
+    for _ in range(3):
+        for name, bd in bodies.items():
+            if name not in clearers and any(re.search(r"\bself\s*\.\s*" + re.escape(c) + r"\s*\(", bd) for c in clearers):
+                clearers.append(name)
     clearers = sorted(set(clearers))
     clears = "set_global" in clearers and "set_global_by_index" in clearers
     # ---- which arm patches a site to which opcode: `| (N << 24)`
@@ -216,7 +223,12 @@ def gen_callcache_consts():
     if n_reads == 0:
         raise ExtractError("the CallGlobalMono arm does not read call_site_cache any more; Model/CallCache.v is out of date")
     # ---- every fill records its owner
-    fills = re.findall(r"call_site_cache\s*\[[^\]]*\]\s*=\s*[\w:]*CallSiteCacheEntry\s*\{([^{}]*)\}", arms[O77] + arms[O78])
+    both = arms[O77] + arms[O78]
+    fills = re.findall(r"call_site_cache\s*\[[^\]]*\]\s*=\s*[\w:]*CallSiteCacheEntry\s*\{([^{}]*)\}", both)
+    # ... or built in a local first: `let e = CallSiteCacheEntry { .. }; self.call_site_cache[slot] = e;`
+    for m in re.finditer(r"call_site_cache\s*\[[^\]]*\]\s*=\s*(\w+)\s*;", both):
+        ms = [x for x in re.finditer(r"\blet\s+(?:mut\s+)?" + m.group(1) + r"\s*(?::[^=;]+)?=\s*[\w:]*CallSiteCacheEntry\s*\{([^{}]*)\}", both[:m.start()])]
+        fills.append(ms[-1].group(1) if ms else "")
     fills_owner = bool(fills) and all(re.search(r"\bowner\s*:", f) or re.search(r"\bowner\s*,", f) for f in fills)
     if validates and not fills_owner:
         raise ExtractError("a cache fill does not record `owner` although the fast path compares it")
@@ -230,7 +242,7 @@ def gen_callcache_consts():
             native_follows = len(conds) > 0
     # ---- serializer
     ser = fn_body(strip_comments(rd("bytecode/src/asm/binary.rs")), "write_function")
-    ser_ok = (re.search(r"==\s*%d\b" % O78, ser) is not None
+    ser_ok = (re.search(r"==\s*%d\b|\b%d\s*(?:\|[^=]*)?=>|matches!\s*\([^)]*\b%d\b" % (O78, O78, O78), ser) is not None
               and re.search(r"\|\s*\(\s*%d\s*<<\s*24\s*\)" % O77, ser) is not None
               and re.search(r"write_u32\s*\(\s*0\s*\)", ser) is not None)
     if not ser_ok:
